@@ -136,11 +136,12 @@ where
             self.position += self.block.size();
 
             if self.block.data().len() > 0 {
-                break;
+                return Ok(self.block.data().len());
             }
         }
 
-        Ok(self.block.data().len())
+        // There are no more frames: nothing was read, and the current block is not a new one.
+        Ok(0)
     }
 
     fn read_block(&mut self) -> io::Result<usize> {
